@@ -192,9 +192,33 @@ def run(ctx):
         "schema-string": {"yardl": {"version": 1, "schema": "x"}},
         "schema-of-other": {"yardl": {"version": 1, "schema": json.loads(m.schema("NbFieldType"))}},
         "schema-types-dropped": {"yardl": {"version": 1, "schema": {"protocol": head["yardl"]["schema"]["protocol"], "types": []}}},
+        # JSON values that a loosely typed comparison takes for the number 1 / for the expected text
+        "version-true": {"yardl": {"version": True, "schema": head["yardl"]["schema"]}},
+        "version-null": {"yardl": {"version": None, "schema": head["yardl"]["schema"]}},
+        "version-array": {"yardl": {"version": [1], "schema": head["yardl"]["schema"]}},
+        "version-object": {"yardl": {"version": {"1": 1}, "schema": head["yardl"]["schema"]}},
+        "version-0": {"yardl": {"version": 0, "schema": head["yardl"]["schema"]}},
+        "version-negative": {"yardl": {"version": -1, "schema": head["yardl"]["schema"]}},
+        "version-huge": {"yardl": {"version": 2 ** 64 + 1, "schema": head["yardl"]["schema"]}},
+        "yardl-is-array": {"yardl": [{"version": 1, "schema": head["yardl"]["schema"]}]},
+        "schema-in-array": {"yardl": {"version": 1, "schema": [head["yardl"]["schema"]]}},
         "header-is-array": [1, 2, 3],
         "header-is-value-line": json.loads(lines[1]),
     }
+    def with_bools(x, done):
+        """the schema with its first number 1 replaced by true / first number 0 by false (equal under a loosely typed comparison)"""
+        if isinstance(x, dict):
+            return {k: with_bools(v, done) for k, v in x.items()}
+        if isinstance(x, list):
+            return [with_bools(v, done) for v in x]
+        if not done and isinstance(x, int) and not isinstance(x, bool) and x in (0, 1):
+            done.append(x)
+            return bool(x)
+        return x
+    done = []
+    sb_schema = with_bools(head["yardl"]["schema"], done)
+    if done:
+        variants["schema-number-as-boolean"] = {"yardl": {"version": 1, "schema": sb_schema}}
     for name, hv in variants.items():
         text = ("\n".join([json.dumps(hv)] + lines[1:]) + "\n").encode()
         for ep in eps:
